@@ -72,8 +72,8 @@ REWRITE_SETS = [
     ("net,yield", "", ["nsqlookupd", "nsqadmin", "internal/protocol", "internal/util", "internal/clusterinfo"]),
     ("net", "", ["internal/http_api", "internal/auth", "internal/statsd"]),
     ("exit", "", ["internal/lg"]),
-    ("net,os,exit,signal,yield", "", ["apps/nsq_to_file"]),
-    ("net,exit,signal,stdin,yield", "", ["apps/to_nsq", "apps/nsq_to_nsq", "apps/nsq_to_http"]),
+    ("net,os,exit,fatal,signal,yield", "", ["apps/nsq_to_file"]),
+    ("net,exit,fatal,signal,stdin,yield", "", ["apps/to_nsq", "apps/nsq_to_nsq", "apps/nsq_to_http"]),
 ]
 
 def ensure_tools():
@@ -145,6 +145,8 @@ def build(scratch, targets=("world",), verbose=False):
                 dst = os.path.join(shared, "zzv_" + name)
                 open(dst, "w").write(src.replace("package zzverif", "package main"))
                 overlay[os.path.join(REPO, "apps", app, "zzv_" + name)] = dst
+            for f in sorted(glob.glob(os.path.join(VERIF, "inpkg", "shared", "*.go"))):
+                overlay[os.path.join(REPO, "apps", app, os.path.basename(f))] = f
     ov = os.path.join(scratch, "overlay.json")
     json.dump({"Replace": overlay}, open(ov, "w"), indent=1)
     bins = {}
